@@ -362,6 +362,7 @@ ME_FIELDS = {   # kind -> list of (ME first bit, width)
 
 class C10(Prop):
     id = "C10"; module = "Adsb.Theorems.C10"; design_ref = "5/C10"
+    modules = ["Adsb.Theorems.C10", "Adsb.Theorems.C06b"]
     deps = ["layout:struct Altitude", "layout:struct SurfacePosition", "layout:struct TargetStateAndStatusInformation", "layout:enum OperationStatus",
             "layout:struct OperationStatusAirborne", "layout:struct OperationStatusSurface", "layout:struct CapabilityClassAirborne",
             "layout:struct CapabilityClassSurface", "layout:struct OperationalMode", "layout:enum ADSBVersion", "layout:struct DataLinkCapability",
@@ -422,7 +423,7 @@ class C10(Prop):
 
 class C07(Prop):
     id = "C07"; module = "Adsb.Theorems.C07"; design_ref = "5/C07"
-    modules = ["Adsb.Theorems.C07", "Adsb.Theorems.C07b"]
+    modules = ["Adsb.Theorems.C07", "Adsb.Theorems.C07b", "Adsb.Theorems.C06b"]
     deps = ["layout:struct AirborneVelocity", "layout:enum AirborneVelocitySubType", "layout:struct GroundSpeedDecoding", "layout:struct AirspeedDecoding",
             "shape:AirborneVelocity::calculate", "layout:enum Sign", "layout:enum VerticalRateSource"]
     tol = 2e-6
